@@ -30,9 +30,24 @@ func init() {
 	})
 }
 
-var c03Prefixes = []string{"none", "fatigue", "reversal", "omission", "anchoring", "concealment", "mixing"}
+var c03Prefixes = []string{"none", "fatigue", "reversal", "omission", "anchoring", "concealment", "mixing",
+	// two preceding biases: the second one extends parameters the first one has already changed
+	"concealment+mixing", "mixing+mixing", "concealment+concealment", "omission+concealment", "mixing+omission"}
 
 func c03Bias(kind string) L {
+	if i := strings.Index(kind, "+"); i > 0 {
+		second := c03Bias(kind[i+1:])
+		if kind[:i] == kind[i+1:] {
+			// the same bias again: another seed / ratio, so that the two additions differ
+			second = L(asL(deepCopy(second)))
+			p := asM(asM(second[0])["props"])
+			p["randomSeed"] = 11
+			if _, ok := p["mixingRatio"]; ok {
+				p["mixingRatio"] = 0.5
+			}
+		}
+		return append(append(L{}, c03Bias(kind[:i])...), second...)
+	}
 	switch kind {
 	case "fatigue":
 		return L{M{"name": "fatigue", "props": M{"function": "const", "params": M{"value": 0.25}, "randomSeed": 3}}}
@@ -403,7 +418,8 @@ func c03Neighbours(s *Shard) {
 // larger one on the lexicographically smaller id and the other way round; values that differ at those ranks.
 func c03NearWeights(s *Shard) {
 	for _, method := range []string{"owa", "weightedSum"} {
-		for wi, ws := range [][]float64{{0.333334, 0.333333, 0.333333}, {0.333333, 0.333333, 0.333334}, {0.333333, 0.333334, 0.333333}, {0.5000004, 0.5, 0.4999996}} {
+		for wi, ws := range [][]float64{{0.333334, 0.333333, 0.333333}, {0.333333, 0.333333, 0.333334}, {0.333333, 0.333334, 0.333333}, {0.5000004, 0.5, 0.4999996},
+			{0.000004, 0.5, 0.499996}, {1, -0.000002, 0.000001}} { // the last two: weights that are tiny but not zero
 			if !s.Take() {
 				continue
 			}
@@ -572,7 +588,7 @@ func c03Run(s *Shard) {
 	for _, method := range utilMethods {
 		for n := 1; n <= 3; n++ {
 			for _, prefix := range c03Prefixes {
-				if n == 1 && (prefix == "omission") {
+				if n == 1 && strings.Contains(prefix, "omission") {
 					continue // would remove every criterion: outside the domain
 				}
 				var wdims []int
